@@ -37,6 +37,8 @@ KEYS = tuple(FLOORS["quick"].keys()) + ("candidate_forks", "simultaneous_timeout
 # floors for the situations added with the later rounds of seeded changes (evidence that they were really exercised)
 FLOORS["quick"].update({'sync_acks_inside_fast_retransmit': 500, 'timeouts_after_finish_time': 400})
 FLOORS["thorough"].update({'sync_acks_inside_fast_retransmit': 2500, 'timeouts_after_finish_time': 2000})
+FLOORS["quick"].update({'other_mss_cases': 50})
+FLOORS["thorough"].update({'other_mss_cases': 250})
 MSS = 512
 
 
